@@ -29,7 +29,30 @@ REALISTIC = ['100', '200', '400', '800', '1500', '3000', '5000', '10000', '60', 
              '5MT', '100Y', '440Y', '100W', '3000w', '1500W', '200h', '50h', 'sh', 'lh', 'sc', '4X100', '4x100m']
 
 
+_CORPUS_DONE = []
+
+
+def add_suite_codes(rep=None):
+    """Every event-code-like text the repository's tests pass to the code-taking functions joins REALISTIC (once)."""
+    if _CORPUS_DONE:
+        return
+    _CORPUS_DONE.append(1)
+    got = common.corpus_args(('.normalize_event_code', '.check_event_code', '.discipline_sort_key', '.text_discipline_sort_key',
+                              '.get_distance', '.get_duration_event_time', '.check_performance_for_discipline'), 0, str)
+    got += common.corpus_args(('.get_implement_weight', '.get_specific_event_code'), 0, str)
+    got += common.corpus_args(('athlon_score.score', 'athlon_score.performance', '.qkids_score', '.wma_world_best',
+                               'AgeGrader.world_best'), 1, str)
+    got += common.corpus_args(('.tyrving_score', '.bulgarian_score.score', '.wma_age_factor', '.wma_age_grade', '.calculate_factor',
+                               '.calculate_age_grade', '.wma_athlon_age_factor', '.wma_athlon_age_grade'), 2, str)
+    got += common.corpus_args(('.sportshall_score',), 0, str)
+    new = [c for c in got if 0 < len(c) <= 24 and c not in REALISTIC]
+    REALISTIC.extend(sorted(set(new)))
+    if rep is not None:
+        rep.setcov('repository_suite_codes', len(set(new)))
+
+
 def generate(sc, rep=None):
+    add_suite_codes(rep)
     pats = c04.live_patterns()
     tr, r, specdir = c04.explore(sc, pats, extra_split=ASCII_SPLIT)
     if rep is not None:
